@@ -47,6 +47,42 @@ type lcWalker struct {
 	nlit    map[string]int
 	exempt  map[string]bool
 	mutexes map[string]bool
+	gos     []lcGo
+}
+
+// isWgCall: <receiver>.wg.<name>(...)
+func (w *lcWalker) isWgCall(call *ast.CallExpr, name string) bool {
+	se, ok := call.Fun.(*ast.SelectorExpr)
+	if !ok || se.Sel.Name != name {
+		return false
+	}
+	f, ok := w.fieldOf(se.X)
+	return ok && f == "wg"
+}
+
+// goDiscipline: is the goroutine started by g counted by the wait group (an Add before the go
+// statement in the same function, a deferred Done at the top level of the literal)?
+func (w *lcWalker) goDiscipline(c *lcCtx, g *ast.GoStmt, root string) {
+	rec := lcGo{root: root, pos: w.pkg.Fset.Position(g.Pos()).String()}
+	if c.fnBody != nil {
+		ast.Inspect(c.fnBody, func(n ast.Node) bool {
+			if _, ok := n.(*ast.FuncLit); ok {
+				return false
+			}
+			if call, ok := n.(*ast.CallExpr); ok && call.Pos() < g.Pos() && w.isWgCall(call, "Add") {
+				rec.addFirst = true
+			}
+			return true
+		})
+	}
+	if fl, ok := g.Call.Fun.(*ast.FuncLit); ok {
+		for _, st := range fl.Body.List {
+			if d, ok := st.(*ast.DeferStmt); ok && w.isWgCall(d.Call, "Done") {
+				rec.done = true
+			}
+		}
+	}
+	w.gos = append(w.gos, rec)
 }
 
 func (w *lcWalker) isCP(t types.Type) bool {
@@ -73,7 +109,15 @@ func (w *lcWalker) fieldOf(e ast.Expr) (string, bool) {
 	return se.Sel.Name, true
 }
 
+type lcGo struct {
+	root     string
+	addFirst bool
+	done     bool
+	pos      string
+}
+
 type lcCtx struct {
+	fnBody *ast.BlockStmt
 	root  string
 	held  map[string]bool
 	init  bool
@@ -174,7 +218,7 @@ func (w *lcWalker) expr(c *lcCtx, e ast.Expr) {
 	switch x := e.(type) {
 	case *ast.FuncLit:
 		// a literal that is not called on the spot: a callback (timer, condition function)
-		nc := lcCtx{root: w.newRoot(c.root, "func", true), held: map[string]bool{}, stack: c.stack, depth: c.depth}
+		nc := lcCtx{root: w.newRoot(c.root, "func", true), held: map[string]bool{}, stack: c.stack, depth: c.depth, fnBody: x.Body}
 		w.block(&nc, x.Body)
 		return
 	case *ast.CallExpr:
@@ -225,6 +269,7 @@ func (w *lcWalker) call(c *lcCtx, call *ast.CallExpr, deferred bool) {
 		if deferred {
 			nc.held = map[string]bool{} // runs at function exit: assume nothing held
 		}
+		nc.fnBody = fl.Body
 		w.block(&nc, fl.Body)
 		return
 	}
@@ -253,6 +298,7 @@ func (w *lcWalker) call(c *lcCtx, call *ast.CallExpr, deferred bool) {
 			for k := range c.stack {
 				nc.stack[k] = true
 			}
+			nc.fnBody = decl.Body
 			w.block(&nc, decl.Body)
 		}
 	}
@@ -300,7 +346,8 @@ func (w *lcWalker) stmt(c *lcCtx, s ast.Stmt) {
 			for _, a := range x.Call.Args {
 				w.expr(c, a)
 			}
-			nc := lcCtx{root: w.newRoot(c.root, "go", true), held: map[string]bool{}, stack: c.stack, depth: c.depth}
+			nc := lcCtx{root: w.newRoot(c.root, "go", true), held: map[string]bool{}, stack: c.stack, depth: c.depth, fnBody: fl.Body}
+			w.goDiscipline(c, x, nc.root)
 			w.block(&nc, fl.Body)
 		} else {
 			nc := lcCtx{root: w.newRoot(c.root, "go", true), held: map[string]bool{}, stack: c.stack, depth: c.depth}
@@ -436,7 +483,7 @@ func genLocksCollector(ps []*packages.Package) {
 		}
 		w.roots[root] = true
 		w.multi[root] = !(name == "Start" || isInit)
-		c := lcCtx{root: root, held: map[string]bool{}, init: isInit, stack: map[*types.Func]bool{fn: true}}
+		c := lcCtx{root: root, held: map[string]bool{}, init: isInit, stack: map[*types.Func]bool{fn: true}, fnBody: fd.Body}
 		w.block(&c, fd.Body)
 	}
 	// composite literal of the struct in the constructor: Init writes of every field
@@ -525,5 +572,19 @@ func genLocksCollector(ps []*packages.Package) {
 		out = append(out, fmt.Sprintf("  mkAccess %d %d %v [%s] %v %v %v (* %s *)", k.root, k.field, k.write, k.locks, k.init, w.multi[r.root], k.unknown, cm))
 	}
 	fmt.Println(strings.Join(out, ";\n"))
+	fmt.Println("].")
+	// goroutines started below the roots of CollectingProcess: (root, wg.Add before the go
+	// statement, deferred wg.Done in the literal)
+	fmt.Println("Definition collector_goroutines : list (nat * bool * bool) := [")
+	gl := []string{}
+	gseen := map[string]bool{}
+	for _, g := range w.gos {
+		if strings.HasPrefix(g.root, "api.Verif") || gseen[g.root] {
+			continue
+		}
+		gseen[g.root] = true
+		gl = append(gl, fmt.Sprintf("  (%d, %v, %v) (* %s at %s *)", ridx[g.root], g.addFirst, g.done, g.root, g.pos[strings.LastIndex(g.pos, "/")+1:]))
+	}
+	fmt.Println(strings.Join(gl, ";\n"))
 	fmt.Println("].")
 }
